@@ -731,6 +731,18 @@ class BuiltinMixin:
         raise Unsupported('bytes method %s' % name)
 
     def str_method(self, recv, name, args):
+        if name == 'format' and recv.py and recv.py[0] == 'strlit' and len(args) == 1 and args[0].t is TInt and \
+                (recv.py[1].count('{0}') + recv.py[1].count('{}')) == 1 and recv.py[1].count('{') == 1:
+            # a literal template with one placeholder filled with an integer: a function of the integer, and an injective
+            # one (the decimal representations of different integers differ) -- all the contracts need of it
+            import hashlib
+            tag = hashlib.sha1(recv.py[1].encode()).hexdigest()[:10]
+            f = z3.Function('fmt_' + tag, z3.IntSort(), TStr.sort())
+            if ('fmt', tag) not in self.wf_seen:
+                self.wf_seen.add(('fmt', tag))
+                x, y = z3.Ints('fmt_x fmt_y')
+                self.assume(z3.ForAll([x, y], z3.Implies(f(x) == f(y), x == y), patterns=[z3.MultiPattern(f(x), f(y))]))
+            return V(TStr, f(args[0].z))
         if name in ('format', 'lower', 'upper', 'strip', 'join', 'encode'):
             if name == 'encode':
                 return fresh(TBytes, 'enc')
